@@ -2,7 +2,7 @@
   C07 — Clone fidelity and independence. Property theorems only (model: PgModel/Sym*.lean,
   `Tree.clone`; lemmas: PgProofs/SymClone.lean).
 -/
-import PgProofs.SymFrame
+import PgProofs.SymClonePart
 namespace Pg.Sym
 
 /-- **The clone is a well-formed tree of its own**: root without parent, empty path, and every
@@ -176,6 +176,31 @@ def resealed : Tree :=
 theorem C07_counterexample_F93 :
     resealed.sealFaithful Cfg.patched false = false ∧
       resealed.flagsEq (resealed.clone Cfg.patched true 2 none []).1 = false := by decide
+
+/-- **`allow_partial` at every descendant, exactly**: original and clone agree on the flag at
+every node *iff* every spec-bound list held directly in a field of an object carries the flag the
+object's constructor hands it (`partFaithful`): without a scope the object's own `allow_partial`,
+inside `with pg.allow_partial(b)` the scope's `b` (F120). Every other node keeps its flag. -/
+theorem C07_partial_everywhere (cfg : Cfg) (deep : Bool) (next : Nat) (t : Tree) (hm : t.noMissing = true) :
+    t.partEq (t.clone cfg deep next none []).1 = t.partFaithful cfg none := by
+  have := clone_partEq cfg deep next none [] t hm none
+  simpa [adoptOpt] using this
+
+/-- F120 as an instance: an object (allow_partial=False) holding a spec-bound list, cloned inside
+`with pg.allow_partial(True)`: not faithful for that scope, and the clone's list has the flag set;
+without a scope the same tree is faithful and the clone agrees everywhere. -/
+def objWithTypedList : Tree :=
+  .node { id := 0, parent := none, path := [], kind := .obj 1, sealed := false, accW := true, part := false }
+    [(.s 0, .leaf .none),
+     (.s 1, .node { id := 1, parent := some 0, path := [.s 1], kind := .list, sealed := false, accW := true,
+                    part := false, typed := true } []),
+     (.s 2, .leaf .none)]
+
+theorem C07_counterexample_F120 :
+    objWithTypedList.partFaithful { Cfg.patched with scopePartial := some true } none = false ∧
+    objWithTypedList.partEq (objWithTypedList.clone { Cfg.patched with scopePartial := some true } false 2 none []).1 = false ∧
+    objWithTypedList.partFaithful Cfg.patched none = true ∧
+    objWithTypedList.partEq (objWithTypedList.clone Cfg.patched false 2 none []).1 = true := by decide
 
 def sample : Forest :=
   (stepA Cfg.patched Forest.empty true (.new (.node .dict false true false
